@@ -97,7 +97,22 @@ func runC16History(rc *RunCtx) *simkit.Violation {
 	w.Note("localfs over %s", map[bool]string{true: "OsFs(tmp)", false: "MemMapFs"}[osDisk])
 	// the whole history runs as one task (the disk is pass-through here): a panic inside localfs is caught and reported
 	var out *simkit.Violation
+	populate := 0
+	if t.Bool(1, 2) {
+		populate = t.Range(4, 14) // a store that already holds some keys: listings span several pages
+	}
 	tk, v := doOp(prop, w, w.Client("c"), "history", func() (interface{}, error) {
+		for i := 0; i < populate; i++ {
+			k, data := drawC16Key(t), t.Bytes(t.Range(0, 9))
+			if err := st.Put(bg, k, bytes.NewReader(data), storage.OverWrite); err != nil {
+				out = Viol(prop, "put-failed", "Put", k, "Put(%q) failed on a healthy disk: %v", k, err)
+				return nil, nil
+			}
+			model[k] = data
+		}
+		if populate > 0 {
+			note("store populated with %q", sortedKeys(model))
+		}
 		out = c16History(prop, w, t, st, model, steps, note, tr, pickKey)
 		return nil, nil
 	})
@@ -264,15 +279,18 @@ func c16History(prop string, w *simkit.World, t *simkit.Tape, st storage.Store, 
 			}
 		default: // KeysPrefix, any page size, following next; sometimes abandoning a pagination half-way first
 			prefixes := []string{"", "a", "a/", "a-", "a-b/", "ab", "ab/", "a/b", "a/a/", "a.b/", "zz", "b/", "x/"}
-			if len(model) > 0 && t.Bool(1, 3) {
+			prefix := prefixes[t.Choose(len(prefixes))]
+			if len(model) > 0 && t.Bool(1, 2) {
 				ks := sortedKeys(model)
 				k := ks[t.Choose(len(ks))]
-				prefixes = append(prefixes, k[:t.Range(0, len(k))])
+				prefix = k[:t.Pick(0, 0, 1, 2, t.Range(0, len(k)))]
 			}
-			prefix := prefixes[t.Choose(len(prefixes))]
 			delim := []string{"", "/", "/"}[t.Choose(3)]
-			page := t.Pick(1, 2, 3, 7, 100)
+			page := t.Pick(1, 1, 2, 2, 3, 7, 100)
 			want := kvListing(model, prefix, delim)
+			if len(want) > page {
+				w.Probe("listing-of-several-pages")
+			}
 			if t.Bool(1, 4) && len(want) > page {
 				// abandon a pagination after its first page, change the store, then list again
 				_, _, _ = st.KeysPrefix(bg, "", prefix, delim, page)
@@ -285,6 +303,37 @@ func c16History(prop string, w *simkit.World, t *simkit.Tape, st storage.Store, 
 						w.Probe("abandoned-pagination")
 					}
 				}
+			}
+			if t.Bool(1, 4) {
+				// two paginations of the same prefix through the same store value advance in turns (a flat one and a
+				// delimited one, or two page sizes): each is the listing it would be alone
+				type pagination struct {
+					delim, token string
+					page         int
+					got, want    []string
+					done         bool
+				}
+				ls := []*pagination{{delim: delim, page: page, want: want}, {delim: []string{"", "/"}[t.Choose(2)], page: t.Pick(1, 2, 3, 7)}}
+				ls[1].want = kvListing(model, prefix, ls[1].delim)
+				for step := 0; step < 400 && !(ls[0].done && ls[1].done); step++ {
+					l := ls[t.Choose(2)]
+					if l.done {
+						continue
+					}
+					ks, next, err := st.KeysPrefix(bg, l.token, prefix, l.delim, l.page)
+					if err != nil {
+						return Viol(prop, "list-wrong", "KeysPrefix-in-turns", prefix, "KeysPrefix(%q,%q,%d) failed: %v (history: %s)", prefix, l.delim, l.page, err, tr())
+					}
+					l.got = append(l.got, ks...)
+					l.token, l.done = next, next == ""
+				}
+				for _, l := range ls {
+					if !l.done || strings.Join(l.got, "\x00") != strings.Join(l.want, "\x00") {
+						return Viol(prop, "list-wrong", "KeysPrefix-in-turns", prefix, "two paginations of prefix %q advanced in turns: the one with delimiter %q and page size %d returned %q, want %q (keys: %q)", prefix, l.delim, l.page, l.got, l.want, sortedKeys(model))
+					}
+				}
+				w.Probe("listings-in-turns")
+				continue
 			}
 			var got []string
 			token := ""
